@@ -144,7 +144,7 @@ def run(ctx):
         for i in range(0, len(f), step):
             srcs.add(f[:i])
             srcs.add(f[:i] + f[i + 1:])
-    cases = sorted(hexs(s) for s in srcs)
+    cases = sorted((hexs(s) for s in srcs), key=lambda h: (len(h), h))
 
     def classify(c, iobs, mobs):
         return None
